@@ -1,6 +1,7 @@
 (* C08 -- Redefine yields a callable function over exactly the missing, permitted inputs. *)
 From ArgMapper Require Import Base Graph GraphAlg Types Args Resolver ResolverSpec Monitors Monitors2 ResolverStatements ResolverStatements2.
-From ArgMapper.proofs Require Import C08Redefine.
+From ArgMapper Require Import ResolverStatements4.
+From ArgMapper.proofs Require Import C08Redefine C08Succeeds.
 
 (* On the domain of the property (no subtypes; the proofs do not even need
    the single-input and one-type-per-name restrictions) and for every tape:
@@ -18,10 +19,20 @@ Theorem C08_unbounded : C08_partial_statement.
 Proof. exact C08_partial_proof. Qed.
 Print Assumptions C08_unbounded.
 
-(* The remaining clauses of the property -- calling the redefined function
+(* "Redefine succeeds whenever every target parameter is itself permitted by
+   the input filter": on the property's domain, from a fresh world and for
+   EVERY order tape, if no output is rejected and every parameter's type
+   passes the input filter (or there is none), Redefine returns a function;
+   the only other outcome is the error of a failing converter generator
+   (the caller's).  Bound: fewer than (2^63-1)/20 vertices. *)
+Theorem C08_succeeds : C08_succeeds_statement.
+Proof. exact C08_succeeds_proof. Qed.
+Print Assumptions C08_succeeds.
+
+(* The remaining clause of the property -- calling the redefined function
    with a value for each declared input never fails for lack of an argument
-   and yields the original function's results; Redefine succeeds whenever
-   every parameter is itself permitted -- are decided by the correspondence
-   check (stream redefstrict: the model of the redefined function's call is
-   compared with the implementation) and by the monitor c08_monitor on the
-   implementation's observations; they are NOT proved. *)
+   and yields the original function's results -- is decided by the
+   correspondence check (stream redefstrict: the model of the redefined
+   function's call is compared with the implementation) and by the monitor
+   c08_monitor on the implementation's observations; statement
+   C08_callable_statement in ResolverStatements3.v. *)
